@@ -64,3 +64,279 @@ Proof.
   unfold dhe_ckx, be16_at, slice_from, slice, idx, rbind.
   pose proof (zlen_nonneg ct). no_panic.
 Qed.
+
+(* ------------------------------------------------------------ ServerKeyExchange *)
+Theorem ecdhe_skx_total tls12 is_rsa cert_rsa algs pok key :
+  ecdhe_skx tls12 is_rsa cert_rsa algs pok key <> RPanic.
+Proof.
+  unfold ecdhe_skx, be16_at, slice_from, slice_to, slice, idx, rbind.
+  pose proof (zlen_nonneg key). no_panic.
+Qed.
+
+Theorem ecdhe_skx_view_total tls12 is_rsa cert_rsa algs pok key :
+  ecdhe_skx_view tls12 is_rsa cert_rsa algs pok key <> RPanic.
+Proof.
+  unfold ecdhe_skx_view.
+  pose proof (ecdhe_skx_total tls12 is_rsa cert_rsa algs pok key) as Ht.
+  destruct (ecdhe_skx tls12 is_rsa cert_rsa algs pok key) as [o|c|] eqn:E; try discriminate; [|exfalso; apply Ht; reflexivity].
+  (* an error after the structural prefix: the curve bytes were readable *)
+  unfold ecdhe_skx in E.
+  destruct (zlen key <? 4) eqn:L; [discriminate|]. apply Z.ltb_ge in L.
+  unfold be16_at, idx, rbind.
+  replace ((0 <=? 1) && (1 <? zlen key)) with true by (symmetry; apply andb_true_intro; split; [reflexivity|apply Z.ltb_lt; lia]).
+  replace ((0 <=? 1 + 1) && (1 + 1 <? zlen key)) with true by (symmetry; apply andb_true_intro; split; [reflexivity|apply Z.ltb_lt; lia]).
+  discriminate.
+Qed.
+
+Theorem verify_params_total tls12 sig_type sah sig : verify_params tls12 sig_type sah sig <> RPanic.
+Proof.
+  unfold verify_params, be16_at, slice_from, slice, idx, rbind.
+  pose proof (zlen_nonneg sig). no_panic.
+Qed.
+
+Lemma read_u16_bytes_total k : read_u16_bytes k <> RPanic.
+Proof.
+  unfold read_u16_bytes, be16_at, slice_from, slice_to, slice, idx, rbind.
+  pose proof (zlen_nonneg k). no_panic.
+Qed.
+
+Lemma read_u16_bytes_len k v r : read_u16_bytes k = ROk (v, r) -> zlen r <= zlen k.
+Proof.
+  unfold read_u16_bytes, be16_at, slice_from, slice_to, slice, idx, rbind.
+  pose proof (zlen_nonneg k).
+  repeat (cbv beta iota;
+          match goal with
+          | |- context [if ?c then _ else _] => destruct c eqn:?
+          end); cbv beta iota; try discriminate.
+  intro E. injection E as _ <-. norm_len. lia.
+Qed.
+
+Theorem dhe_skx_total tls12 sig_type sah skip key : dhe_skx tls12 sig_type sah skip key <> RPanic.
+Proof.
+  unfold dhe_skx.
+  destruct (read_u16_bytes key) as [[p k1]|c|] eqn:E1; try discriminate;
+    [|exact (fun _ => read_u16_bytes_total key E1)].
+  destruct (read_u16_bytes k1) as [[g k2]|c|] eqn:E2; try discriminate;
+    [|exact (fun _ => read_u16_bytes_total k1 E2)].
+  destruct (read_u16_bytes k2) as [[y sig]|c|] eqn:E3; try discriminate;
+    [|exact (fun _ => read_u16_bytes_total k2 E3)].
+  destruct ((unbe y =? 0)%N || (unbe p <=? unbe y)%N); [discriminate|].
+  pose proof (read_u16_bytes_len _ _ _ E1). pose proof (read_u16_bytes_len _ _ _ E2).
+  pose proof (read_u16_bytes_len _ _ _ E3). pose proof (zlen_nonneg sig).
+  unfold slice_to, slice.
+  replace ((0 <=? 0) && (0 <=? zlen key - zlen sig) && (zlen key - zlen sig <=? zlen key)) with true.
+  - pose proof (verify_params_total tls12 sig_type sah sig) as Hv.
+    destruct (verify_params tls12 sig_type sah sig); try discriminate. exfalso; apply Hv; reflexivity.
+  - symmetry. repeat (apply andb_true_intro; split); try reflexivity; apply Z.leb_le; lia.
+Qed.
+
+(* ------------------------------------------------------------ decrypt does not panic *)
+Section Reader.
+  Variable stream : Z -> bytes -> bytes.
+  Variable cbc_dec : bytes -> bytes -> bytes.
+  Variable aopen : bytes -> bytes -> bytes -> option bytes.
+  Variable mac : bytes -> bytes.
+  Notation dec := (half_decrypt stream cbc_dec aopen mac).
+  Notation rroc' := (rroc stream cbc_dec aopen mac).
+  Notation fill' := (fill_hand stream cbc_dec aopen mac).
+  Notation rxrec := (rx_record32 stream cbc_dec aopen mac).
+
+  (* the only panics of decrypt: a record shorter than its header (never passed
+     by the reader) and the sequence-number wrap after 2^64 - 1 records *)
+  Theorem decrypt_no_panic st rec :
+    5 <= zlen rec -> inc_seq (seqno st) <> None -> dec st rec <> Panic.
+  Proof.
+    intros Hl Hs. unfold half_decrypt, mac_check.
+    replace (zlen rec <? 5) with false by (symmetry; apply Z.ltb_ge; lia).
+    destruct (inc_seq (seqno st)) as [s1|] eqn:Es; [|contradiction].
+    destruct st as [v k s iv sp]. cbn [knd version seqno civ spos] in *.
+    destruct k; cbn [seqno]; rewrite ?Es;
+      repeat (cbv beta iota zeta;
+              match goal with
+              | |- context [if ?c then _ else _] => destruct c eqn:?
+              | |- context [match aopen ?a ?b ?c with _ => _ end] => destruct (aopen a b c)
+              | |- context [match tls13_inner ?a ?b with _ => _ end] => destruct (tls13_inner a b) as [[? ?]| |] eqn:?
+              | |- context [let '(_, _) := ?x in _] => destruct x
+              end); cbv beta iota zeta; try discriminate;
+      try (exfalso; match goal with H : tls13_inner _ _ = Panic |- _ =>
+             unfold tls13_inner in H;
+             repeat match type of H with
+                    | (if ?c then _ else _) = _ => destruct c
+                    | match ?x with _ => _ end = _ => destruct x
+                    end; discriminate end).
+  Qed.
+
+  (* ---------------------------------------------------------- one readRecordOrCCS *)
+  Lemma rx_record32_data c buf typ data st' rest :
+    rxrec c buf = RxRec typ data st' rest -> zlen data <= 16384.
+  Proof.
+    unfold rx_record32, rx_decrypt.
+    destruct (zlen buf <? 5); [discriminate|].
+    destruct (rx_header32 c buf); [|discriminate].
+    destruct (zlen buf <? 5 + z); [discriminate|].
+    destruct (dec (rc_st c) (ztake (5 + z) buf)) as [[[[d t] s] cl]| |]; try discriminate.
+    unfold max_plaintext. destruct (Z.gtb_spec (zlen d) 16384); [discriminate|].
+    intro Hq. injection Hq as _ <- _ _. lia.
+  Qed.
+
+  Lemma rroc_spec fuel : forall expect c buf c' rest d,
+    0 <= rc_retry c ->
+    rroc' fuel expect c buf = RROk c' rest d ->
+    0 <= rc_retry c' /\
+    zlen (rc_hand c) <= zlen (rc_hand c') <= zlen (rc_hand c) + 16384 /\
+    (expect = false ->
+       (zlen (rc_hand c) < zlen (rc_hand c') /\ rc_pending c' = false) \/
+       (rc_hand c' = rc_hand c /\ rc_pending c' = true)).
+  Proof.
+    induction fuel as [|f IH]; intros expect c buf c' rest d Hr H; [discriminate|].
+    cbn [rroc] in H.
+    destruct (rc_pending c); [discriminate|].
+    destruct (rxrec c buf) as [typ data st' rest0|e] eqn:Erx; [|discriminate].
+    pose proof (rx_record32_data _ _ _ _ _ _ Erx) as Hd.
+    pose proof (zlen_nonneg data) as Hd0.
+    set (retry1 := if negb (typ =? 21)%N && negb (typ =? 20)%N && (0 <? zlen data) then 0 else rc_retry c) in *.
+    assert (Hr1 : 0 <= retry1) by (subst retry1; destruct (negb (typ =? 21)%N && negb (typ =? 20)%N && (0 <? zlen data)); lia).
+    assert (Hagain : forall c1 rest1 d1,
+               rroc' f expect (with_read c st' (rc_hand c) (retry1 + 1) false) rest0 = RROk c1 rest1 d1 ->
+               0 <= rc_retry c1 /\
+               zlen (rc_hand c) <= zlen (rc_hand c1) <= zlen (rc_hand c) + 16384 /\
+               (expect = false ->
+                  (zlen (rc_hand c) < zlen (rc_hand c1) /\ rc_pending c1 = false) \/
+                  (rc_hand c1 = rc_hand c /\ rc_pending c1 = true))).
+    { intros c1 rest1 d1 H1. apply IH in H1; [exact H1|cbn; lia]. }
+    repeat match type of H with
+           | (if ?x then _ else _) = _ => destruct x eqn:?
+           | match ?x with _ => _ end = _ => destruct x eqn:?
+           end; try discriminate;
+      try (apply Hagain in H; exact H);
+      injection H as <- <- <-; cbn [rc_retry rc_hand rc_pending with_read];
+      (split; [exact Hr1|]); rewrite ?zlen_app;
+      (split; [try rewrite zlen_cons in *; lia|]); intro He; try (rewrite He in *; discriminate).
+    - right. split; reflexivity.
+    - left. split; [unfold zlen in *; cbn [length] in *; lia|reflexivity].
+  Qed.
+
+  Ltac split_goal :=
+    repeat (cbv beta iota zeta;
+            match goal with
+            | |- context [if ?x then _ else _] => destruct x eqn:?
+            | |- context [match ?x with _ => _ end] => destruct x eqn:?
+            end); cbv beta iota zeta.
+
+  (* retryReadRecord: at most maxUselessRecords nested calls *)
+  Lemma rroc_fuel fuel : forall expect c buf,
+    0 <= rc_retry c -> Z.of_nat fuel >= 18 - rc_retry c -> (1 <= fuel)%nat ->
+    rroc' fuel expect c buf <> RRFuel.
+  Proof.
+    induction fuel as [|f IH]; intros expect c buf Hr Hf H1; [lia|].
+    cbn [rroc].
+    destruct (rc_pending c); [discriminate|].
+    destruct (rxrec c buf) as [typ data st' rest0|e]; [|discriminate].
+    unfold max_useless.
+    destruct (negb (typ =? 21)%N && negb (typ =? 20)%N && (0 <? zlen data)) eqn:Ec.
+    - apply andb_prop in Ec as [Ec E3]. apply andb_prop in Ec as [E1 E2].
+      apply negb_true_iff in E1, E2. apply Z.ltb_lt in E3. rewrite E1, E2.
+      split_goal; try discriminate.
+      all: try (rewrite zlen_nil in E3; lia).
+    - split_goal; try discriminate;
+        (apply IH; cbn [rc_retry with_read]; b2p; lia).
+  Qed.
+
+  Lemma rroc_pending f expect c buf : rc_pending c = true -> rroc' (S f) expect c buf = RREnd EndOther.
+  Proof. intro H. cbn [rroc]. now rewrite H. Qed.
+
+  (* ---------------------------------------------------------- for c.hand.Len() < need { readRecord() } *)
+  Definition hand_cap (c : rconn) (need : Z) : Z := Z.max (zlen (rc_hand c)) (need - 1 + 16384).
+
+  Lemma fill_hand_spec fuel : forall need c buf,
+    0 <= rc_retry c -> Z.of_nat fuel >= need - zlen (rc_hand c) + 1 ->
+    fill' fuel need c buf <> RRFuel /\
+    forall c' rest d, fill' fuel need c buf = RROk c' rest d ->
+      0 <= rc_retry c' /\ need <= zlen (rc_hand c') <= hand_cap c need.
+  Proof.
+    induction fuel as [|f IH]; intros need c buf Hr Hf; cbn [fill_hand]; unfold hand_cap.
+    - destruct (Z.geb_spec (zlen (rc_hand c)) need) as [G|G]; [|lia].
+      split; [discriminate|]. intros c' rest d H. injection H as <- _ _. split; [exact Hr|lia].
+    - destruct (Z.geb_spec (zlen (rc_hand c)) need) as [G|G].
+      { split; [discriminate|]. intros c' rest d H. injection H as <- _ _. split; [exact Hr|lia]. }
+      pose proof (rroc_fuel 18 false c buf Hr ltac:(lia) ltac:(lia)) as Hnf.
+      destruct (rroc' 18 false c buf) as [c1 rest1 d1|e|] eqn:Er; [|split; [discriminate|intros; discriminate]|contradiction].
+      destruct (rroc_spec 18 false c buf c1 rest1 d1 Hr Er) as (Hr1 & Hh & Hcase).
+      destruct (Hcase eq_refl) as [[Hg Hp]|[He Hp]].
+      + destruct (IH need c1 rest1 Hr1 ltac:(lia)) as [I1 I2]. split; [exact I1|].
+        intros c' rest d H. destruct (I2 _ _ _ H) as [J1 J2]. split; [exact J1|].
+        unfold hand_cap in J2. lia.
+      + (* application data was delivered instead: the next readRecord refuses *)
+        destruct f as [|f']; [lia|]. cbn [fill_hand].
+        rewrite He. destruct (Z.geb_spec (zlen (rc_hand c)) need) as [G'|G']; [lia|].
+        change 18%nat with (S 17). rewrite (rroc_pending 17 false c1 rest1 Hp).
+        split; [discriminate|intros; discriminate].
+  Qed.
+
+  (* ---------------------------------------------------------- the theorems *)
+  Theorem rroc_total expect c buf : 0 <= rc_retry c -> rroc' 18 expect c buf <> RRFuel.
+  Proof. intro H. apply rroc_fuel; [exact H|lia|lia]. Qed.
+
+  Definition hand_limit := 4 + 65536 + 16384.
+
+  Lemma hs_len_nonneg (h : bytes) :
+    0 <= Z.of_N (nth 1 h 0%N) * 65536 + Z.of_N (nth 2 h 0%N) * 256 + Z.of_N (nth 3 h 0%N).
+  Proof. lia. Qed.
+
+  Theorem read_handshake_total unm c buf :
+    0 <= rc_retry c -> read_handshake stream cbc_dec aopen mac unm c buf <> HFuel.
+  Proof.
+    intro Hr. unfold read_handshake, max_handshake.
+    pose proof (zlen_nonneg (rc_hand c)) as Hh0.
+    destruct (fill_hand_spec 5 4 c buf Hr ltac:(lia)) as [F1 S1].
+    destruct (fill' 5 4 c buf) as [c1 buf1 d1|e|]; [|discriminate|contradiction].
+    destruct (S1 _ _ _ eq_refl) as [Hr1 Hb1].
+    set (n := Z.of_N (nth 1 (rc_hand c1) 0%N) * 65536 + Z.of_N (nth 2 (rc_hand c1) 0%N) * 256 +
+              Z.of_N (nth 3 (rc_hand c1) 0%N)).
+    assert (Hn : 0 <= n) by apply hs_len_nonneg.
+    destruct (n >? 65536); [discriminate|].
+    destruct (fill_hand_spec (Z.to_nat (4 + n) + 1) (4 + n) c1 buf1 Hr1 ltac:(lia)) as [F2 S2].
+    destruct (fill' (Z.to_nat (4 + n) + 1) (4 + n) c1 buf1) as [c2 buf2 d2|e|]; [|discriminate|contradiction].
+    split_goal; discriminate.
+  Qed.
+
+  (* c.hand never holds more than one maximal message plus one record *)
+  Theorem handshake_buffer_bounded unm c buf t raw c' rest :
+    0 <= rc_retry c -> zlen (rc_hand c) <= hand_limit ->
+    read_handshake stream cbc_dec aopen mac unm c buf = HMsg t raw c' rest ->
+    zlen (rc_hand c') <= hand_limit /\ zlen raw <= 4 + 65536 /\ 0 <= rc_retry c'.
+  Proof.
+    intros Hr Hl. unfold read_handshake, max_handshake, hand_limit in *.
+    pose proof (zlen_nonneg (rc_hand c)) as Hh0.
+    destruct (fill_hand_spec 5 4 c buf Hr ltac:(lia)) as [F1 S1].
+    destruct (fill' 5 4 c buf) as [c1 buf1 d1|e|]; try discriminate.
+    destruct (S1 _ _ _ eq_refl) as [Hr1 Hb1]. unfold hand_cap in Hb1.
+    set (n := Z.of_N (nth 1 (rc_hand c1) 0%N) * 65536 + Z.of_N (nth 2 (rc_hand c1) 0%N) * 256 +
+              Z.of_N (nth 3 (rc_hand c1) 0%N)).
+    assert (Hn : 0 <= n) by apply hs_len_nonneg.
+    destruct (Z.gtb_spec n 65536) as [G|G]; [discriminate|].
+    destruct (fill_hand_spec (Z.to_nat (4 + n) + 1) (4 + n) c1 buf1 Hr1 ltac:(lia)) as [F2 S2].
+    destruct (fill' (Z.to_nat (4 + n) + 1) (4 + n) c1 buf1) as [c2 buf2 d2|e|]; try discriminate.
+    destruct (S2 _ _ _ eq_refl) as [Hr2 Hb2]. unfold hand_cap in Hb2.
+    intro H.
+    repeat match type of H with
+           | (if ?x then _ else _) = _ => destruct x; try discriminate
+           end.
+    injection H as _ <- <- _. cbn [rc_hand rc_retry with_read].
+    rewrite zlen_zdrop_gen, zlen_ztake_gen. Show. lia.
+  Qed.
+
+  (* once the transport is closed every read returns: at a record boundary
+     io.EOF, inside a record io.ErrUnexpectedEOF *)
+  Theorem closed_transport_returns f expect c :
+    rc_pending c = false -> rroc' (S f) expect c [] = RREnd EndEOF.
+  Proof. intro H. cbn [rroc]. rewrite H. reflexivity. Qed.
+
+  Theorem closed_inside_record f expect c buf :
+    rc_pending c = false -> 0 < zlen buf < 5 -> rroc' (S f) expect c buf = RREnd EndUnexpectedEOF.
+  Proof.
+    intros H Hb. cbn [rroc]. rewrite H. unfold rx_record32.
+    replace (zlen buf <? 5) with true by (symmetry; apply Z.ltb_lt; lia).
+    destruct buf; [rewrite zlen_nil in Hb; lia|reflexivity].
+  Qed.
+End Reader.
